@@ -638,6 +638,63 @@ func init() {
 		}
 		return call(fr.i, fr, token.NoPos, newf, nil)
 	})
+	// ---- sync.Map: an insertion-ordered map of interface keys per sync.Map object; every
+	// operation is a scheduling point (it is atomic, like the real one)
+	emptyIface := types.NewInterfaceType(nil, nil)
+	syncMap := func(fr *frame, p *value) *omap {
+		m := fr.i.syncMaps[p]
+		if m == nil {
+			m = &omap{keyType: emptyIface, index: make(map[int][]*oentry)}
+			fr.i.syncMaps[p] = m
+		}
+		fr.i.sched.yield("sync.Map")
+		return m
+	}
+	reg("(*sync.Map).Load", func(fr *frame, args []value) value {
+		v, ok := syncMap(fr, ptr(args[0])).lookup(args[1])
+		if !ok {
+			return tuple{iface{}, false}
+		}
+		return tuple{v, true}
+	})
+	reg("(*sync.Map).Store", func(fr *frame, args []value) value {
+		syncMap(fr, ptr(args[0])).insert(args[1], args[2])
+		return nil
+	})
+	reg("(*sync.Map).LoadOrStore", func(fr *frame, args []value) value {
+		m := syncMap(fr, ptr(args[0]))
+		if v, ok := m.lookup(args[1]); ok {
+			return tuple{v, true}
+		}
+		m.insert(args[1], args[2])
+		return tuple{args[2], false}
+	})
+	reg("(*sync.Map).LoadAndDelete", func(fr *frame, args []value) value {
+		m := syncMap(fr, ptr(args[0]))
+		v, ok := m.lookup(args[1])
+		if !ok {
+			return tuple{iface{}, false}
+		}
+		m.delete(args[1])
+		return tuple{v, true}
+	})
+	reg("(*sync.Map).Delete", func(fr *frame, args []value) value {
+		syncMap(fr, ptr(args[0])).delete(args[1])
+		return nil
+	})
+	reg("(*sync.Map).Range", func(fr *frame, args []value) value {
+		m := syncMap(fr, ptr(args[0]))
+		for _, e := range append([]*oentry(nil), m.entries...) {
+			if e.deleted {
+				continue
+			}
+			r := call(fr.i, fr, token.NoPos, args[1], []value{e.key, e.val})
+			if b, ok := r.(bool); ok && !b {
+				break
+			}
+		}
+		return nil
+	})
 	reg("(*sync.Pool).Put", func(fr *frame, args []value) value {
 		p := ptr(args[0])
 		m := fr.i.pools[p]
